@@ -13,7 +13,10 @@ RULE = ("one run = 2-3 simulated OS processes (baton-passing threads) each doing
         "ParallelEtherCat(...).run(): take 1-8 FMMU windows; stay a drawn time` (in 'churn' "
         "several times in a row), with drawn start times, pre-emption before every file "
         "system, lock, bpf() and netlink operation (PCT bound 0-6 plus stalls of 1-30 ms, in a "
-        "third of the runs up to 400 ms - longer than a joiner waits -, at hot points), in 'crash' one participant dies between two operations; the real "
+        "third of the runs up to 400 ms - longer than a joiner waits -, at hot points, and "
+        "stalls anywhere with 0-3 %), in 'crash' one participant dies between two operations; "
+        "'fmmu-files': 2-4 processes follow run()'s lock-directory protocol around the FMMU "
+        "address map alone (create/open/fill/allocate/release, no bus); the real "
         "dispatcher is generated, loaded, attached and pinned in the kernel stub; "
         "invariants are evaluated at every yield point; distinct = distinct sequences of "
         "process switches; non-trivial = at least two participants were inside run() at the "
